@@ -7,6 +7,6 @@ Extraction "model_c15.ml"
   inter_agrees inter_spec_ok seq_agrees seq_spec_ok run_product run1
   typed_agrees typed_spec_ok
   raw_agrees raw_spec_ok
-  decode_prop prop_decode prop_obs_agrees decode_prop_all propm_obs_agrees prop_obs_spec_ok propm_obs_spec_ok
+  decode_prop prop_decode prop_obs_agrees decode_prop_all propm_obs_agrees prop_obs_spec_ok propm_obs_spec_ok decode_prop_alt decode_prop_all_alt
   name_agrees value_xml_name
   capture drain marshal retrans reread parse_tree same_stream somes drained.
